@@ -42,10 +42,10 @@ def csig(steps, line):
     return ">".join(evs) + ("|after-processor-failure" if failed else "")
 
 
-def run_consumer(chk, prop, tier, seed):
+def run_consumer(chk, prop, tier, seed, alias=None, only=None):
     thorough = tier == "thorough"
     rng = random.Random(seed)
-    configs = consfam.CONFIGS
+    configs = [c for c in consfam.CONFIGS if only is None or c["name"] in only]
     for ci, cfg in enumerate(configs):
         wd = tlc.workdir("%s-%s-cons-%d" % (prop, tier, ci))
         depth = 8 if thorough else 7
@@ -79,12 +79,17 @@ def run_consumer(chk, prop, tier, seed):
         results, _ = tlc.validate_traces(wd, "Consumer_Trace", traces, tdefs, tlines, timeout=1500)
         chk.add_traces(len(traces), sum(len(t["steps"]) for t in traces))
         chk.sample({"family": "consumer", "config": cfg["name"], "source": sources[-1], "trace": traces[-1]["steps"][:6]})
-        judge(chk, prop, "consumer[%s]" % cfg["name"], traces, results, lambda t: t["steps"], csig, sources)
+        judge(chk, prop, "consumer[%s]" % cfg["name"], traces, results, lambda t: t["steps"], csig, sources, alias=alias)
 
 
 def grow_not_skip(chk, tier, seed):
     """C12, consumer half: after 'fetch size too small' the next fetch has the same offset and the next buffer size."""
-    run_consumer(chk, "C12x", tier, seed)
+    def alias(clause, step):
+        # what the consumer does with 'fetch size too small' (same offset, next buffer size, never past the message)
+        if clause in ("C14.growth", "C02.fetch_position") and step["e"]["a"] == "FetchDone" and step["e"]["w"] == [-1]:
+            return "C12.grow_not_skip"
+        return None
+    run_consumer(chk, "C12", tier, seed, alias=alias, only=("group-n2-tick-async", "nogroup-async-noreset-limit2"))
 
 
 def main(prop, tier, seed, replay_file):
